@@ -36,6 +36,7 @@ def run(ctx):
                       "try_wait_bg_jobs (the analysis of C06 R06-2)")
     ctx.rule("R07-9", "a job is shown Stopped exactly when every live member is stopped: all_members_stopped walks pids "
                       "(the analysis of C06 R06-5)")
+    ctx.rule("R07-10", "every job can be found by its group id (the analysis of C06 R06-7: id scans are not bounded by jobs.len())")
     ctx.rule("R07-5", "main: every path of the Input(line) arm reaches try_wait_bg_jobs before the next read_line")
     for crate in ctx.crates:
         pairing_rule(ctx, crate)
@@ -52,6 +53,7 @@ def run(ctx):
     for crate in ctx.crates:
         c06.routing_rule(ctx, crate)
         c06.stopped_rule(ctx, crate)
+        c06.id_scan_rule(ctx, crate, "R07-10")
     ren = {"R06-2": "R07-8", "R06-5": "R07-9"}
     for o in ctx.obligations[n0:]:
         if o["rule"] in ren:
